@@ -1,5 +1,8 @@
 import Carquet.Util
 import Carquet.Impl.FileReal
+import Carquet.Impl.SchemaApi
+import Carquet.Impl.WriterSpecTable
+import Carquet.Spec.File
 import Driver.ReadBack
 /-
 Driver op `wr` (harness/ops_file.c): a write history executed by the real writer.
@@ -14,15 +17,41 @@ own predicate (what was read back is the table the history intends).
 namespace Driver.Ops.FileWrite
 open Carquet Carquet.Util Carquet.Impl.Writer
 
+/-- the `logical_type` argument of `carquet_schema_add_column`: `N` = NULL pointer, else `id:p1:p2` with the id of
+`carquet_logical_type_id_t` and the two members of the `params` union that belong to it (DECIMAL precision:scale,
+INTEGER bit_width:is_signed, TIME / TIMESTAMP unit:is_adjusted_to_utc, 0:0 otherwise) — the notation of the
+`apibuild` lines -/
+def parseLogical (s : String) : Option (Option Impl.ThriftParquet.LogicalType) :=
+  if s == "N" then some none else
+  match s.splitOn ":" with
+  | [i, a, b] => do
+    let i ← i.toNat?; let a ← a.toInt?; let b ← b.toInt?
+    let unit : Impl.ThriftParquet.TimeUnit := if a == 0 then .millis else if a == 1 then .micros else .nanos
+    match i with
+    | 0 => some (some .unknown) | 1 => some (some .string) | 2 => some (some .map) | 3 => some (some .list)
+    | 4 => some (some .enum) | 5 => some (some (.decimal b a)) | 6 => some (some .date)
+    | 7 => some (some (.time (b != 0) unit)) | 8 => some (some (.timestamp (b != 0) unit))
+    | 9 => some (some (.integer a (b != 0))) | 10 => some (some .null) | 11 => some (some .json)
+    | 12 => some (some .bson) | 13 => some (some .uuid) | 14 => some (some .float16) | _ => none
+  | _ => none
+
+def showLogical : Option Impl.ThriftParquet.LogicalType → String
+  | none => "N"
+  | some l => s!"{Impl.SchemaApi.logicalId l}:{(Impl.SchemaApi.logicalParams l).1}:{(Impl.SchemaApi.logicalParams l).2}"
+
+/-- `name.rep.ptype.tlen` (lines written before logical types were generated: NULL pointer) or
+`name.rep.ptype.tlen.<logical>` -/
 def parseCol (s : String) : Option Col :=
-  match s.splitOn "." with
-  | [nm, rep, pt, tl] => do
+  let mk (nm rep pt tl : String) (lt : Option Impl.ThriftParquet.LogicalType) : Option Col := do
     let r ← rep.toNat?
     let p ← pt.toNat?
     let t ← tl.toNat?
     let ptype ← PType.ofCode p
     let rp ← (match r with | 0 => some Rep.required | 1 => some Rep.optional | 2 => some Rep.repeated | _ => none)
-    some ⟨nm, ptype, rp, t⟩
+    some ⟨nm, ptype, rp, t, lt⟩
+  match s.splitOn "." with
+  | [nm, rep, pt, tl] => mk nm rep pt tl none
+  | [nm, rep, pt, tl, lt] => (parseLogical lt).bind (mk nm rep pt tl)
   | _ => none
 
 def parseDefs (s : String) : Option (Nat × Option (List Nat)) :=
@@ -90,9 +119,46 @@ def parseOracle (s : String) : Option Impl.FileReal.Oracle :=
       some (ub, cb)
     | _ => none) s
 
+/-! ### logical types of the written columns
+
+(b) the INDEPENDENT reader's metadata stages (`Spec.File.readSchema`: envelope, footer with the required-field
+and union rules of parquet.thrift, schema tree) on the REAL file must return the schema tree of the theorem
+(`specSchemaOf cols`: names, repetition, types, type lengths, no converted type, and for every column exactly
+the logical type it was created with);
+(c) `carquet_schema_node_logical_type` of every element of the re-opened file, in the three modes (`lt0` fread,
+`lt1` mmap, `lt2` buffer): tie = the reader MODEL's accessor on the real bytes returns the same; property =
+it is what the columns were created with (`colLogical`: NULL for a NULL pointer or id UNKNOWN). -/
+
+def reasonStr (r : Spec.File.Reason) : String := ((toString (repr r)).replace " " "_").replace "\n" "_"
+
+def specSchemaChecks (cols : List Col) (file : List UInt8) : List (String × Bool) :=
+  match Spec.File.readSchema file with
+  | .error r => [("spec_reader_accepts_footer:" ++ reasonStr r, false)]
+  | .ok root => [("spec_reader_states_the_written_schema_and_logical_types", Spec.File.nodeBeq root (specSchemaOf cols))]
+
+def modelAccessors (mode : Impl.Reader.Mode) (file : List UInt8) : Option String :=
+  match Impl.Reader.openFile mode file with
+  | .ok o => some (showList (fun e => showLogical (Impl.SchemaApi.nodeLogicalType e)) o.md.schema)
+  | .error _ => none
+
+def writtenAccessors (cols : List Col) : String :=
+  showList id ("N" :: cols.map (fun c => showLogical (Impl.FileReal.colLogical c)))
+
+def logicalChecks (cols : List Col) (file : List UInt8) (l : Line) : List (String × Bool) × List (String × Bool) :=
+  let per (k : Nat) (nm : String) : List (String × Bool) × List (String × Bool) :=
+    match l.outStr s!"lt{k}" with
+    | none => ([], [])
+    | some got =>
+      ([(s!"reader_model_logical_types_{nm}", modelAccessors (Driver.ReadBack.modeOf k) file == some got)],
+       [(s!"accessor_returns_written_logical_types_{nm}", got == writtenAccessors cols)])
+  let a := per 0 "fread"; let b := per 1 "mmap"; let c := per 2 "buffer"
+  (a.1 ++ b.1 ++ c.1,
+   a.2 ++ b.2 ++ c.2 ++ [("logical_types_reported_in_fread_mode", (l.outStr "lt0").isSome || (l.outStr "open").isSome)])
+
 def handle (l : Line) : Option Verdict :=
   match l.op with
   | "wrtwice" => some .ok      -- directed determinism cases: judged by the C-side predicate p_same_twice
+  | "wrmany" => some .ok       -- tens of thousands of row groups: judged by the C-side predicate p_roundtrip
   | "wr" => some <|
     match parseCase l with
     | none => .bad "wr case"
@@ -100,7 +166,10 @@ def handle (l : Line) : Option Verdict :=
       if (l.outStr "err").isSome then .diverge "writer-could-not-be-created"
       else match l.outNats "st", l.outHex "file" with
       | some st, some file =>
-        let rb := if st.all (· == 0) then Driver.ReadBack.readChecks c.cols c.codec c.ops file l else ([], [])
+        let rb0 := if st.all (· == 0) then Driver.ReadBack.readChecks c.cols c.codec c.ops file l else ([], [])
+        let lg := if st.all (· == 0) then logicalChecks c.cols file l else ([], [])
+        let sp := if st.getLast? == some 0 then specSchemaChecks c.cols file else []
+        let rb := (rb0.1 ++ lg.1, rb0.2 ++ lg.2 ++ sp)
         if modelledCodec c.codec then
           let m := fileOf (Impl.FileReal.deps []) c.cols c.codec c.page "Carquet" c.ops
           verdict ([("writer_model_statuses", m.2.map statusCode == st),
